@@ -267,3 +267,6 @@ def run(ctx):
     # growth next to C04: the mutable collection of track objects (TrackColl.tla)
     from drivers import trackcoll_common
     trackcoll_common.run(ctx, quick)
+    # growth next to C04: which tracks share which list / Obs objects (TrackShare.tla)
+    from drivers import trackshare_common
+    trackshare_common.run(ctx, quick)
